@@ -163,7 +163,10 @@ def enumerate_crashes(pair, ops, res, torn=False, rnd=None, max_subsets=12, only
             nsub += 1
             cuts.append(("fork X D %d skip=%s" % (upto, ",".join(map(str, skip))), "upto=%d skip=%s" % (upto, skip), None))
         if torn:
-            for c in range(lo, hi):
+            tcs = list(range(lo, hi))
+            if len(tcs) > 60:
+                tcs = sorted(set(tcs[:6] + tcs[-6:] + [(rnd or random).choice(tcs) for _ in range(8)]))
+            for c in tcs:
                 o = allops[c]
                 if not o.startswith("w:"):
                     continue
